@@ -28,7 +28,7 @@ func main() {
 		cleanupScratch()
 		os.Exit(code)
 	case "units":
-		w, err := loadWorld("/repo", nil)
+		w, err := loadWorld(repoDir(), nil)
 		if err != nil {
 			fmt.Println(err)
 			os.Exit(2)
@@ -56,12 +56,12 @@ func cmdVerify(args []string) {
 	fs.Var(&subs, "sub", "in-memory source rewrite FILE:::OLD:::NEW (relative to /repo), repeatable")
 	fs.Parse(args)
 	t0 := time.Now()
-	overlay, oerr := buildOverlay("/repo", subs)
+	overlay, oerr := buildOverlay(repoDir(), subs)
 	if oerr != nil {
 		fmt.Println("overlay error:", oerr)
 		os.Exit(2)
 	}
-	w, err := loadWorld("/repo", overlay)
+	w, err := loadWorld(repoDir(), overlay)
 	if err != nil {
 		fmt.Println("load error:", err)
 		os.Exit(2)
@@ -221,4 +221,12 @@ func modelScalars(model string) [][2]string {
 		out = append(out, [2]string{m[1], strings.TrimSpace(m[3])})
 	}
 	return out
+}
+
+// repoDir is the repository under verification (/repo unless GOVC_REPO points at a scratch copy).
+func repoDir() string {
+	if d := os.Getenv("GOVC_REPO"); d != "" {
+		return d
+	}
+	return "/repo"
 }
